@@ -430,8 +430,7 @@ all arguments: the translated body of `addNet` (`Gen/ApiSizes.lean`), run by the
 `absSz` of the value state, throws exactly when `NetsValue.addNet` refuses, and leaves exactly the lengths of
 `netLimits_`, `netWeights_`, `pinCells_`, `pinXOffsets_`, `pinYOffsets_` and the `netLimits_.back()` of the value
 model's result.  So the three validation steps of the hand model (length test, pin range, empty net) and its five
-length effects are re-derived from `src/coloquinte.cpp` on every run.  (`setNets`: stated as
-`setNets_refines_full_statement`, not proved yet — its tie is the `nv*` correspondence only.) -/
+length effects are re-derived from `src/coloquinte.cpp` on every run.  -/
 theorem addNet_value_model_matches_translation (s : Nets) (cells : List Int) (nxo nyo : Nat) :
     ∀ f ∈ ApiSizes.setters, f.name = "addNet" →
       ((BusySizes.execS BusySizes.noCallS (addArgs cells nxo nyo) 0 f.body ⟨false, absSz s⟩).out = .thrown
@@ -439,16 +438,17 @@ theorem addNet_value_model_matches_translation (s : Nets) (cells : List Int) (nx
       netView (BusySizes.execS BusySizes.noCallS (addArgs cells nxo nyo) 0 f.body ⟨false, absSz s⟩).st.sz
         = netView (absSz (step s (.add cells nxo nyo))) := addNet_refines s cells nxo nyo
 
-/-- the `setNets` counterpart of `addNet_value_model_matches_translation` (full statement; NOT proved) -/
-def setNets_refines_full_statement : Prop :=
-  ∀ (s : Nets) (limits cells : List Int) (nxo nyo nwt : Nat), ∀ f ∈ ApiSizes.setters, f.name = "setNets" →
-    ((BusySizes.execS BusySizes.noCallS (setArgs limits cells nxo nyo nwt) 0 f.body ⟨false, absSz s⟩).out = .thrown
-        ↔ setNets s limits cells nxo nyo nwt = none) ∧
-    netView (BusySizes.execS BusySizes.noCallS (setArgs limits cells nxo nyo nwt) 0 f.body ⟨false, absSz s⟩).st.sz
-      = netView (absSz (step s (.set limits cells nxo nyo nwt)))
+/-- The same for `setNets`: its four validation blocks (limits non-empty / starting at 0 / sorted; `limits.back()` against
+the three pin vectors; the weights length; the pin range) and its six length effects, for all states and arguments. -/
+theorem setNets_value_model_matches_translation (s : Nets) (limits cells : List Int) (nxo nyo nwt : Nat) :
+    ∀ f ∈ ApiSizes.setters, f.name = "setNets" →
+      ((BusySizes.execS BusySizes.noCallS (setArgs limits cells nxo nyo nwt) 0 f.body ⟨false, absSz s⟩).out = .thrown
+          ↔ setNets s limits cells nxo nyo nwt = none) ∧
+      netView (BusySizes.execS BusySizes.noCallS (setArgs limits cells nxo nyo nwt) 0 f.body ⟨false, absSz s⟩).st.sz
+        = netView (absSz (step s (.set limits cells nxo nyo nwt))) := setNets_refines s limits cells nxo nyo nwt
 
 /-- non-vacuity: the table has an `addNet` entry -/
-example : ∃ f ∈ ApiSizes.setters, f.name = "addNet" := by decide
+example : (∃ f ∈ ApiSizes.setters, f.name = "addNet") ∧ ∃ f ∈ ApiSizes.setters, f.name = "setNets" := by decide
 
 end Nets
 
